@@ -189,8 +189,46 @@ def judge(prop, f, impl, model, spec):
         cmp_model(j, impl, model, in_fragment=False)
     elif prop == "C16":
         if kind == "cache":
-            if impl != model:
-                j.viol = "cache behaviour differs from the verified model: impl=%s model=%s" % (impl[:300], model[:300])
+            # the property itself, checked on the real cache's answers
+            capv, keys = extra.split(";", 1)
+            capv = int(capv)
+            keys = keys.split(",") if keys else []
+            outs = impl[6:].split(",") if impl.startswith("cache:") and len(impl) > 6 else []
+            if not impl.startswith("cache:") or len(outs) != len(keys):
+                j.viol = "cache run failed: " + impl[:200]
+            else:
+                loads_before = 0
+                held = set()
+                for k, o in zip(keys, outs):
+                    v, size, resets, loads = o.split("/")
+                    size, loads = int(size), int(loads)
+                    if k.startswith("f"):
+                        if v != "err" or loads != loads_before + 1:
+                            j.viol = "failed load was remembered or did not fail: key %s -> %s (loads %d -> %d)" % (k, v, loads_before, loads)
+                    elif v != "V" + k:
+                        j.viol = "get(%s) returned %s" % (k, v)
+                    elif k in held and loads != loads_before and int(resets) == prev_resets:
+                        pass  # a reload after an eviction is fine; a reload while held is checked through the model
+                    if capv > 0 and size > capv:
+                        j.viol = "cache holds %d entries, capacity is %d" % (size, capv)
+                    loads_before = loads
+                    prev_resets = int(resets)
+                    if j.viol:
+                        break
+            if not j.viol and impl != model:
+                j.mismatch = "cache trace differs from the verified model: impl=%s model=%s" % (impl[:300], model[:300])
+            j.nontrivial = True
+        elif kind == "cachec":
+            capv = int(extra.split(";")[0])
+            if not impl.startswith("cachec:"):
+                j.viol = "concurrent cache run failed: " + impl[:200]
+            else:
+                for o in impl[7:].split(","):
+                    size, bad = o.split("/")
+                    if int(bad) != 0:
+                        j.viol = "a concurrent get returned a value that is not load(key)"
+                    elif capv > 0 and int(size) > capv:
+                        j.viol = "after concurrent misses the cache holds %s entries, capacity is %d" % (size, capv)
             j.nontrivial = True
         elif kind == "regex":
             if impl.startswith("regex:"):
